@@ -770,13 +770,69 @@ def rotate(rng, tier):
     return COMBOS
 
 
+XML_WORDS = ["item", "config", "type", "str", "int", "dict", "list", "none", "bool", "float"]
+
+
+def _dict_keys_in(v, out):
+    if isinstance(v, dict):
+        for k, x in v.items():
+            if isinstance(k, str):
+                out.append(k)
+            _dict_keys_in(x, out)
+    elif isinstance(v, (list, tuple)):
+        for x in v:
+            _dict_keys_in(x, out)
+
+
+def colliding_combos(case, rng, everything):
+    """format options that collide with the configuration's own names: YAML root_key equal to a top-level field name, a
+    nested field name, a key of a dict value; XML root_tag equal to a field name, to the tag of list items, to the
+    default root tag, to a type word.  The colliding names are taken from the case's own schema and values.
+    everything=True (matrix): every kind of collision; otherwise a random few."""
+    fields = case["co"]["fields"] if case["mode"] == "model" else case["fields"]
+    top = [k for k, _ in fields]
+    nested = []
+    for _, nd in fields:
+        if "fields" in nd:
+            nested += [k for k, _ in nd["fields"]]
+            for _, n2 in nd["fields"]:
+                if "fields" in n2:
+                    nested += [k for k, _ in n2["fields"]]
+    vkeys = []
+    _dict_keys_in(case["co"]["ops"] if case["mode"] == "model" else case["ops"], vkeys)
+    vkeys = [k for k in vkeys if k not in top] or ["a"]
+    subs = [k for k, nd in fields if "fields" in nd]
+    leaves = [k for k, nd in fields if "fields" not in nd]
+    pick = lambda l: [rng.choice(l)] if l else []      # noqa: E731
+    ykeys = pick(subs) + pick(leaves) + pick([k for k in nested if k not in top]) + pick(vkeys)
+    if top:
+        ykeys.append(top[0])
+        ykeys.append(top[-1])
+    xtags = [t for t in pick(subs) + pick(leaves) + pick(nested) + pick(vkeys) if ncname_ok(t) and all(ord(ch) < 128 for ch in t)]
+    xtags += ["item", "config"] + pick(XML_WORDS[2:])
+    out = []
+    for k in dict.fromkeys(ykeys):
+        out.append(["yaml", {"root_key": k}])
+    for t in dict.fromkeys(xtags):
+        out.append(["xml", {"root_tag": t}])
+    if not everything:
+        out = rng.sample(out, min(len(out), 3))
+    return out
+
+
 def generate(rng, tier):
     cases = matrix_rich() + matrix_model()
+    for c in cases:
+        c["combos"] = [list(x) for x in c["combos"]] + colliding_combos(c, random.Random(c.get("seed", 0) + 77), True)
     n_rich, n_model = (400, 400) if tier == "quick" else (5000, 5000)
     for _ in range(n_rich):
-        cases.append(rich_case(rng, combos=rotate(rng, tier)))
+        c = rich_case(rng, combos=rotate(rng, tier))
+        c["combos"] = [list(x) for x in c["combos"]] + colliding_combos(c, rng, False)
+        cases.append(c)
     for _ in range(n_model):
-        cases.append(model_case(rng, 7 if tier == "quick" else 16, combos=rotate(rng, tier)))
+        c = model_case(rng, 7 if tier == "quick" else 16, combos=rotate(rng, tier))
+        c["combos"] = [list(x) for x in c["combos"]] + colliding_combos(c, rng, False)
+        cases.append(c)
     return cases
 
 
